@@ -286,21 +286,33 @@ void traverse_for_images(token * t, DString * text, mmd_engine * e, long * offse
 		switch (t->type) {
 			case PAIR_BRACKET_IMAGE:
 				if (t->next && t->next->type == PAIR_PAREN) {
+					char * raw = NULL;
+					char * title = NULL;
+					char * attributes = NULL;
+
 					t = t->next;
 
-					memcpy(url, &text->str[t->start + *offset + 1], t->len - 2);
-					url[t->len - 2] = '\0';
-					clean = clean_string(url, false, true);
+					// The asset is stored under the link's destination alone --
+					// a title and attributes may follow it inside the parentheses
+					extract_from_paren(t, e->dstr->str, &raw, &title, &attributes);
 
-					HASH_FIND_STR(e->asset_hash, clean, a);
+					if (raw) {
+						clean = clean_string(raw, false, true);
 
-					if (a) {
-						// Replace url with asset path
-						memcpy(&destination[7], a->asset_path, 36);
-						* offset += d_string_replace_text_in_range(text, t->start + *offset, t->len, clean, destination);
+						HASH_FIND_STR(e->asset_hash, clean, a);
+
+						if (a) {
+							// Replace url with asset path
+							memcpy(&destination[7], a->asset_path, 36);
+							* offset += d_string_replace_text_in_range(text, t->start + *offset, t->len, raw, destination);
+						}
+
+						free(clean);
 					}
 
-					free(clean);
+					free(raw);
+					free(title);
+					free(attributes);
 				}
 
 				break;
